@@ -1108,7 +1108,11 @@ class xfunc_quantile(xfunc):
                         qs[i] = self.qfunc(seg, self.probability, axis=0)
         else:
             if coordinates is None:
-                qs[:] = self.weighted_quantile(self.arr, self.probability, self.weights)
+                if self.weights.shape:
+                    w = self.weights
+                else:
+                    w = numpy.repeat(self.weights, len(self.arr))
+                qs[:] = self.weighted_quantile(self.arr, self.probability, w)
             else:
                 for i, rowmask in self.bins(coordinates, size):
                     seg = self.arr[rowmask]
